@@ -290,4 +290,17 @@ theorem hopsOf_eq_hopSpec (bs : Bytes) : hopsOf bs = hopSpec bs := by
   have := hops_gen bs 0 [] (by simp)
   simpa [hopsOf, hrun, fresh] using this
 
+/-- an empty line (CR LF right after a LF) ends the header, whatever came before -/
+theorem empty_line_ends (h0 : HSt) (pre : Bytes) : (hrun h0 ((pre ++ [LF]) ++ [CR, LF])).inHeader = false := by
+  rw [hrun_append, hrun_append]
+  show (hrun (hstep (hrun h0 pre) LF) [CR, LF]).inHeader = false
+  cases hin : (hrun h0 pre).inHeader with
+  | false =>
+    rw [hstep_out _ _ hin, hrun_out _ _ hin]; exact hin
+  | true =>
+    rw [hstep_lf _ hin]
+    cases (!((hrun h0 pre).my && (hrun h0 pre).pos == 1)) with
+    | false => rw [hrun_out _ _ rfl]
+    | true => simp [hstep, CR, LF]
+
 end Nq.Lemmas.HopCount
